@@ -406,6 +406,48 @@ theorem C03_facts_verb_split :
     "pr.routes.iterate" ∈ GB.Generated.c03RouteOuterCalls := by
   decide
 
+/-- **The HTTP method is matched exactly.** `RouteHTTP` for method `m` consults only the routes whose HTTP method
+    equals `m` byte for byte (a case-sensitive token: no HEAD→GET, OPTIONS or lower-case fallback): routing on the
+    whole table = routing on its `m`-part; if no binding has method `m` every path with a leading slash is NotFound;
+    and whatever is found is an entry of the table stored under `m` itself. -/
+theorem C03_method_exact {ι : Type} (tbl : List (Route ι)) (m path : Bytes) :
+    routePath tbl m path = routePath (tbl.filter fun r => r.httpMethod == m) m path ∧
+    ((∀ r ∈ tbl, r.httpMethod ≠ m) → ∀ p, routePath tbl m (47 :: p) = .error .notFound) ∧
+    (∀ (T : Table ι), (∀ e ∈ T, WF e.2.2) → ∀ p i b, routePath (routesOf T) m (47 :: p) = .found i b →
+      ∃ t, (i, m, t) ∈ T) := by
+  refine ⟨?_, ?_, ?_⟩
+  · unfold routePath
+    simp only [List.filter_filter, Bool.and_self]
+  · intro h p
+    have hf : (tbl.filter fun r => r.httpMethod == m) = [] := by
+      rw [List.filter_eq_nil_iff]
+      intro r hr; simpa using h r hr
+    unfold routePath
+    simp only [hf]
+    cases (splitSlash p).getLast? <;> rfl
+  · intro T hwf p i b hfound
+    obtain ⟨pre, t, post', hT, _, _⟩ := (C03_route_iff T hwf m p i b).1 hfound
+    exact ⟨t, by rw [hT]; simp⟩
+
+/-- HEAD vs GET, kernel-checked: the table `[GET /a/*]` answers `GET /a/x` with the binding and `HEAD /a/x`, `get /a/x`,
+    `OPTIONS /a/x` with NotFound (what seeded change C03-m12 — the GET list aliased under HEAD in `commit()` — broke). -/
+theorem C03_method_exact_head :
+    let tbl : Table Nat := [(0, [71, 69, 84], ⟨[.plain (.lit [97]), .plain .star], []⟩)]
+    routePath (routesOf tbl) [71, 69, 84] [47, 97, 47, 120] = .found 0 [] ∧
+    routePath (routesOf tbl) [72, 69, 65, 68] [47, 97, 47, 120] = .error .notFound ∧
+    routePath (routesOf tbl) [103, 101, 116] [47, 97, 47, 120] = .error .notFound ∧
+    routePath (routesOf tbl) [79, 80, 84, 73, 79, 78, 83] [47, 97, 47, 120] = .error .notFound := by
+  decide
+
+/-- Regenerated go/ast facts: `mutablePatternRoutingTable.commit` builds the static table by copying every method's list
+    under its OWN key — one range loop over `mt.routes`, one index assignment `routes[method] = cloneLinkedList(list)`,
+    three statements (make, loop, return): no second key is ever written. -/
+theorem C03_facts_commit :
+    GB.Generated.c03CommitIndexAssigns = ["routes[method]=cloneLinkedList(list)"] ∧
+    GB.Generated.c03CommitRanges = ["method,list:=range mt.routes"] ∧
+    GB.Generated.c03CommitStmts = 3 := by
+  decide
+
 /-! ## Composition with the parser (property C20's model of `gwbased.Parse`)
 
   `Tmpl.ShapeOk`, an assumption of `C03_compiled_matcher` so far, is a THEOREM about the parser model: it holds for
